@@ -251,7 +251,16 @@ func (g *gen) responses() []*node {
 	perm := g.r.Perm(len(codes))
 	var out []*node
 	for i := 0; i < n; i++ {
-		out = append(out, g.response(codes[perm[i]]))
+		code := codes[perm[i]]
+		if g.r.Chance(1, 4) {
+			// any code of the 100-599 range (not only the usual ones): keeps exercising whatever is
+			// memoised per keyword; avoid the codes the macros and shared include files use
+			code = 100 + g.r.Intn(500)
+			for code == 418 || code == 503 || code == 429 || code == 402 || code == 451 {
+				code = 100 + g.r.Intn(500)
+			}
+		}
+		out = append(out, g.response(code))
 	}
 	return out
 }
